@@ -88,6 +88,13 @@ def random_part_cfgs(tier, base_id=200000):
                 lo = [rnd.uniform(-100, 100) for _ in range(D)] if rep >= 2 and rep % 3 == 0 else None
                 b = box if lo is None else [[lo[x], lo[x] + abs(rnd.gauss(0, 10)) + 1e-3] for x in range(D)]
                 cfgs.append({"id": i, "kind": kind, "K": K, "D": D, "box": b, "seed": rnd.randrange(1 << 30), "nops": rnd.randint(4, 14), "maxcells": 160 if kind != "dbin" else 220, "force_endpoints": force, "p_deepen": rnd.choice([0.1, 0.3, 0.6])})
+    # the ends of the float range (every finite box lo < hi): tiny, subnormal, huge, a few ulps wide
+    EXT = [[[1e-300, 2e-300]], [[5e-324, 5e-323]], [[-1e150, 1e150]], [[1.0, 1.0 + 2.0 ** -40]], [[-1e-310, 1e-310]], [[1e15, 1e15 + 1.0]], [[-3e-5, 7e200]],
+           [[1e-300, 3e-300], [-1e100, 1e100]], [[0.0, 5e-324], [1.0, 2.0]]]
+    for (kind, K) in A.PART_KINDS:
+        for box in (EXT if tier != "quick" else [EXT[(K + len(kind)) % len(EXT)], EXT[(K * 3 + 1) % len(EXT)], EXT[-2]]):
+            i += 1
+            cfgs.append({"id": i, "kind": kind, "K": K, "D": len(box), "box": box, "seed": rnd.randrange(1 << 30), "nops": 10, "maxcells": 120, "force_endpoints": 0.3 if kind in ("rbin", "rkary") else 0.0, "p_deepen": 0.3})
     # deep chains along the first / last child: depth 70 (labels beyond 2^63 for arity >= 3, cells at float resolution)
     for (kind, K) in A.PART_KINDS:
         for side in ("first", "last"):
